@@ -1042,5 +1042,66 @@ let x = vconvert_all_pairs(graph, shortest_paths_vecs);
         target.is_some() && !graph.knows(target.unwrap()) ==> r.is_err(),
         target.is_some() && !graph.knows(target.unwrap()) && !weighted ==> is_err_kind(r, ErrorKind::NodeNotFound),
 //@ end
+
+// R-ext (A5): `pairs.into_iter().flat_map(|x| x.1.into_iter().map(|y| y.1))` (nested hash-map iteration): ASSUMED to hand over the infos of all entries;
+// `.filter(f).collect()` on owned items: ASSUMED to keep, in order, exactly the items for which f answers true - f stays in place and is verified
+pub open spec fn has_interior_of<T>(paths: Seq<Vec<T>>, x: &T) -> bool { has_interior(paths, *x) }
+#[verifier::external_body]
+pub fn vflatten_infos<T: Eq + Hash>(pairs: HashMap<T, HashMap<T, ShortestPathInfo<T>>>) -> (r: Vec<ShortestPathInfo<T>>)
+{ pairs.into_iter().flat_map(|x| x.1.into_iter().map(|y| y.1)).collect() }
+pub open spec fn owned_filter_picks<X, F: FnMut(&X) -> bool>(v: Seq<X>, r: Seq<X>, keep: Seq<int>, f: F) -> bool {
+    &&& keep.len() == r.len()
+    &&& forall|a: int, b: int| 0 <= a < b < keep.len() ==> keep[a] < keep[b]
+    &&& forall|k: int| 0 <= k < keep.len() ==> 0 <= #[trigger] keep[k] < v.len() && r[k] == v[keep[k]] && call_ensures(f, (&v[keep[k]],), true)
+    &&& forall|i: int| 0 <= i < v.len() ==> keep.contains(i) || call_ensures(f, (&#[trigger] v[i],), false)
+}
+#[verifier::external_body]
+pub fn vfilter_owned<X, F: FnMut(&X) -> bool>(v: Vec<X>, f: F) -> (r: Vec<X>)
+    requires forall|i: int| 0 <= i < v@.len() ==> call_requires(f, (&#[trigger] v@[i],)),
+    ensures exists|keep: Seq<int>| #[trigger] owned_filter_picks(v@, r@, keep, f),
+{ v.into_iter().filter(f).collect() }
+
+//@ extract fn src/algorithms/shortest_path/dijkstra.rs get_all_shortest_paths_involving props=C08,C20
+//@ rewrite
+) -> Vec<ShortestPathInfo<T>>
+//@ with
+) -> (r: Vec<ShortestPathInfo<T>>)
+//@ rewrite
+Ok(pairs) => pairs
+            .into_iter()
+            .flat_map(|x| x.1.into_iter().map(|y| y.1))
+            .filter(|x|
+//@ with
+Ok(pairs) => {
+            let all = vflatten_infos(pairs);
+            let ghost allv = all@;
+            let through = |x: &ShortestPathInfo<T>| -> (b: bool)
+                requires T::obeys_eq_spec(), forall|a: T, b: T| #[trigger] a.eq_spec(&b) == (a == b),
+                ensures b == has_interior_of(x.paths@, &node_name),
+            {
+//@ rewrite
+)
+            .collect(),
+    }
+//@ with
+ };
+            let out = vfilter_owned(all, through);
+            proof {
+                let keep = choose|keep: Seq<int>| #[trigger] owned_filter_picks(allv, out@, keep, through);
+                assert(owned_filter_picks(allv, out@, keep, through));
+                assert forall|i: int| 0 <= i < out@.len() implies has_interior((#[trigger] out@[i]).paths@, node_name) by {
+                    assert(call_ensures(through, (&allv[keep[i]],), true));
+                }
+            }
+            out
+        }
+    }
+//@ spec
+    requires
+        graph.wf_nodes(), graph.wf_rows(), graph.wf_estore(),
+    ensures
+        // [C08.involving.every_returned_info_has_the_node_strictly_inside_a_path]
+        forall|i: int| 0 <= i < r@.len() ==> has_interior((#[trigger] r@[i]).paths@, node_name),
+//@ end
 } // verus!
 fn main() {}
